@@ -1089,9 +1089,11 @@ class Interp:
                     return [(st, self.raised(
                         "datetime-field", "ValueError", node,
                         "absolute {}={} outside [{},{}]".format(k, v, lo, hi)))]
-            if k == "day" and isinstance(v, IntV) and (v.lo < 1 or v.hi > 31):
+            if k == "day" and isinstance(v, IntV) and v.lo < 0:
+                # dateutil: day = min(length of the month, rd.day or dt.day) -- an absolute day above the
+                # month length is clipped and 0 means "keep"; only a negative day reaches replace() and raises
                 return [(st, self.raised("datetime-field", "ValueError", node,
-                                         "absolute day={} outside [1,31]".format(v)))]
+                                         "absolute day={} may be negative".format(v)))]
         if neg:
             rd = RDV(rd.abs, {k: IntV(-v.hi, -v.lo, ("neg", v.sym)) for k, v in rd.rel.items()})
         sym = ("dtexpr", dt.sym, rd.sym)
